@@ -805,8 +805,89 @@ def setter_reset_agreement(repo, chk, ct, D):
     chk.floor("R-C11-4", 4)
 
 
+def runtime_properties(repo, ct):
+    """-> ({class: set(run-time private fields)}, {property name: set(classes)}): the fields reset_initial_values restores are the state a run leaves behind;
+    a public property is run-time state when its getter reads such a field of self, directly or through another such property (level = head - elevation)."""
+    _fn, table = reset_table(repo, ct)
+    # (a field "restored" to itself -- PowerPump._base_power, known finding R-C11-1b -- is not state a run changes)
+    fields = {cn: {f for f, v in t.items() if f.startswith("_") and str(v).replace("self.", "") != f} for cn, t in table.items() if cn in ELEMENT_CLASSES}
+    props = {}
+    for cn in ELEMENT_CLASSES:
+        pub = ct.public(cn)
+        rt = set()
+        changed = True
+        while changed:
+            changed = False
+            for k, info in pub.items():
+                g = info.get("getter")
+                if g is None or k in rt:
+                    continue
+                reads = {a.attr for a in walk(g) if isinstance(a, ast.Attribute) and isinstance(a.ctx, ast.Load) and isinstance(a.value, ast.Name) and a.value.id == "self"}
+                if reads & (fields.get(cn, set()) | rt):
+                    rt.add(k)
+                    changed = True
+        for k in rt:
+            props.setdefault(k, set()).add(cn)
+    return fields, props
+
+
+def writer_reads_definition(repo, chk, ct):
+    """R-C11-6 (T1, read sets): the functions that write the model out as an EPANET input file (InpFile._write_* and what they call in wntr/epanet/io.py) read no
+    run-time state of a model element -- neither a field reset_initial_values restores nor a property computed from one.  EpanetSimulator.run_sim writes the model
+    with this writer: state left behind by an earlier run must not reach the file (the second simulator would start from the first one's end state, and a
+    written-and-re-read model would have another definition)."""
+    fields, props = runtime_properties(repo, ct)
+    allf = set()
+    for v in fields.values():
+        allf |= v
+    if not ({"status", "head", "demand"} <= set(props)):
+        raise ExtractError("run-time properties not derived (status / head / demand expected among %s)" % sorted(props))
+    inp = repo.cls(EIO, "InpFile")
+    meths = {n.name: n for n in inp.body if isinstance(n, ast.FunctionDef)}
+    mod_funcs = {n.name: n for n in repo.tree(EIO).body if isinstance(n, ast.FunctionDef)}
+    todo = [n for nm, n in meths.items() if nm.startswith("_write") or nm == "write"]
+    if len(todo) < 20:
+        raise AnchorError("InpFile._write_* methods not found (%d)" % len(todo))
+    seen = {}
+    while todo:
+        fn = todo.pop()
+        if fn.name in seen:
+            continue
+        seen[fn.name] = fn
+        for c in calls(fn):
+            nm = call_name(c) or ""
+            if nm.startswith("self.") and nm[5:] in meths and not nm[5:].startswith("_read") and nm[5:] != "read":
+                todo.append(meths[nm[5:]])
+            elif nm in mod_funcs:
+                todo.append(mod_funcs[nm])
+    n = 0
+    for name, fn in sorted(seen.items()):
+        fn._rel = EIO
+        chk.fn(fn)
+        bad_ = []
+        # locals that hold an options group (report = wn.options.report): their attributes are options, not element state
+        opt_locals = {t.id for st in walk(fn) if isinstance(st, ast.Assign) and "options" in unparse(st.value).split("(")[0] for t in st.targets if isinstance(t, ast.Name)}
+        for a in walk(fn):
+            if isinstance(a, ast.Attribute) and isinstance(a.ctx, ast.Load) and (a.attr in props or a.attr in allf):
+                recv = unparse(a.value)
+                if recv == "self" or recv.startswith("self.") or recv in ("np", "math", "wntr", "logger"):
+                    continue                   # the writer's own fields (self.flow_units ...), not a model element
+                if ".options" in recv or recv.split(".")[0].split("[")[0] in opt_locals:
+                    continue
+                bad_.append((a.lineno, "%s.%s" % (recv, a.attr)))
+        n += 1
+        chk.expect(not bad_, "R-C11-6", "InpFile.%s writes definition attributes only" % name, loc(fn),
+                   "%s is run-time state (restored by reset_initial_values%s): after a simulation in which a control changed it, the file -- and the EpanetSimulator run that is "
+                   "started from this file -- carries the end state of that run instead of the model's definition" % (
+                       bad_[0][1].split(".")[-1] if bad_ else "-", "" if not bad_ or bad_[0][1].split(".")[-1] in allf else ", computed from such a field"),
+                   expected="initial_* / definition attributes", found=["line %d: %s" % b_ for b_ in bad_[:4]])
+    chk.floor("R-C11-6", 20)
+    chk.sample({"rule": "R-C11-6", "run_time_properties": {k: sorted(v)[:3] for k, v in sorted(props.items())}, "writer_functions": sorted(seen)})
+
+
 def run(repo, chk):
     ct = ClassTable(repo)
+    writer_reads_definition(repo, chk, ct)
     D, RT, wn_rt = field_sets(repo, ct)
     all_rt = set(wn_rt)
     for v in RT.values():
@@ -1049,6 +1130,8 @@ _LINK_RESET_MERGED = ("        for link_type in (Pipe, Pump, Valve):\n          
                       + "".join("    " + l + "\n" for l in _LINK_BODY.splitlines())
                       + "                if isinstance(link, PowerPump):\n                    link.power = link._base_power\n                link._prev_setting = None\n")
 WITNESSES = [
+    dict(name="valve-line-written-from-current-setting", file=EIO, old="                valve_set = from_si(self.flow_units, valve.initial_setting, HydParam.Flow)\n", new="                valve_set = from_si(self.flow_units, valve.setting, HydParam.Flow)\n", rule="R-C11-6"),
+    dict(name="tank-line-written-from-current-level", file=EIO, old="'initlev': from_si(self.flow_units, tank.init_level, HydParam.HydraulicHead),", new="'initlev': from_si(self.flow_units, tank.level, HydParam.HydraulicHead),", rule="R-C11-6"),
     dict(name="results-stored-into-definition-field", file=HYD, old="            node._pressure = m.head[name].value - node.elevation\n",
          new="            node._pressure = m.head[name].value - node.elevation\n            node._elevation = node.elevation\n", rule="R-C11-1"),
     dict(name="integration-writes-init-level", file=HYD, old="        tank._head = tank._prev_head + delta_h\n",
